@@ -43,7 +43,7 @@ func (x *Exec) doCall(st *State, call *ssa.Call, cont func(*State, Value)) {
 		x.unsupportedf("dynamic call at %s", pos)
 	}
 	if fn, ok := fv.Fn.(*ssa.Function); ok && fn != nil {
-		x.callFunction(st, funcKey(fn), fn, append(append([]Value(nil), args...)), fv.Bind, pos, cont)
+		x.callFunction(st, funcKey(fn), fn, fn.Signature, append(append([]Value(nil), args...)), fv.Bind, pos, cont)
 		return
 	}
 	// symbolic function value: pure uninterpreted application (assumption 10)
@@ -120,14 +120,13 @@ func (x *Exec) callByKey(st *State, key string, fn *ssa.Function, sig *types.Sig
 	if x.modelCall(st, key, sig, args, pos, cont) {
 		return
 	}
-	x.callFunction(st, key, fn, args, nil, pos, cont)
+	x.callFunction(st, key, fn, sig, args, nil, pos, cont)
 }
 
-func (x *Exec) callFunction(st *State, key string, fn *ssa.Function, args []Value, binds []Value, pos string, cont func(*State, Value)) {
+func (x *Exec) callFunction(st *State, key string, fn *ssa.Function, sig *types.Signature, args []Value, binds []Value, pos string, cont func(*State, Value)) {
 	c := x.P.ContractFor(key)
 	if c != nil && !c.Inline {
-		var sig *types.Signature
-		if fn != nil {
+		if sig == nil && fn != nil {
 			sig = fn.Signature
 		}
 		x.applyContract(st, c, fn, sig, args, pos, cont)
@@ -503,6 +502,7 @@ func (x *Exec) loopEntry(st *State, l *Loop) {
 		st.alloc = na
 	}
 	env = x.loopEnv(st, l)
+	env.assuming = true
 	for _, cl := range x.loopClauses(l, "invariant") {
 		st.assume(env.evalBool(cl.E))
 	}
